@@ -100,7 +100,8 @@ class PersistentMixin(Module):
                 self.persistentData = json.load(f)
             if not isinstance(self.persistentData, dict):
                 raise ValueError('persistent data must be a JSON object')
-        except (FileNotFoundError, ValueError, RecursionError):
+        except (OSError, ValueError, RecursionError):
+            # OSError: the file is missing or can not be read
             # RecursionError: a damaged file may contain deeply nested brackets
             self.persistentData = {}
         result = {}
